@@ -237,3 +237,43 @@ CHECKS["C19"] = dict(
     level_text="All operation histories up to the depth bound over the stated alphabet, from three start states, are executed on the real BookBuild::Book; every reached state is compared with a from-scratch fixed point.",
     level_note="Trusted: the reference transcription of the header's equations; books larger than ~8 nodes are not reached.",
 )
+
+# ------------------------------------------------------------------------------------------ C12
+def c12_parts(tier, seed):
+    q = tier == "quick"
+    T = "c12_tbgen"
+    if q:
+        return [
+            P("exact-3men", T, "seq", ["--part", "exact3", "--wk", 0], require=["terminal", "nontrivial"]),
+            P("exact-4men", T, "fast", ["--part", "exact4", "--wk", 2, "--names", "KQvKR,KRvKB,KNvKQ,KBNvK,KvKRR,KRvKR", "--from", (seed * 2) % 36, "--count", 2], require=["nontrivial"], deadline_frac=0.8),
+            P("inTT-3men", T, "fast", ["--part", "tt3", "--wk", 0, "--from", 0, "--count", 8], require=["nontrivial"]),
+            P("inTT-4men", T, "fast", ["--part", "tt4", "--wk", 2, "--names", "KQvKN", "--from", (seed * 3 + 1) % 36, "--count", 1], require=["nontrivial"], deadline_frac=0.8),
+            P("abort-3men", T, "fast", ["--part", "abort3", "--from", 0, "--count", 8], require=["aborted_generations"], deadline_frac=0.9),
+        ]
+    return [
+        P("exact-3men", T, "seq", ["--part", "exact3", "--wk", 0], require=["terminal", "nontrivial"]),
+        P("exact-4men", T, "fast", ["--part", "exact4", "--wk", 0, "--from", 0, "--count", 36], require=["nontrivial"], deadline_frac=0.95),
+        P("inTT-3men", T, "fast", ["--part", "tt3", "--wk", 0, "--from", 0, "--count", 8], require=["nontrivial"]),
+        P("inTT-4men", T, "fast", ["--part", "tt4", "--wk", 1, "--from", 0, "--count", 36], require=["nontrivial"], deadline_frac=0.95),
+        P("abort-3men", T, "fast", ["--part", "abort3", "--from", 0, "--count", 8], require=["aborted_generations"], deadline_frac=0.9),
+        P("abort-4men", T, "fast", ["--part", "abort4", "--from", 21, "--count", 2], require=["aborted_generations"], deadline_frac=0.9),
+    ]
+
+CHECKS["C12"] = dict(
+    parts=c12_parts,
+    rule="states = placements visited (every legal placement of the kings plus every sub-multiset of the men, both sides to move; for abort parts: every placement probed after "
+         "each aborted generation); transitions = successor probes in the minimax equation; evaluations additionally counts abort points executed; non-trivial = non-terminal "
+         "placement (has legal moves) / abort point that really aborted the generation",
+    alphabet="material classes: 8 three-men and 36 four-men pawnless classes; storage back ends: VectorStorage and TTStorage inside a 16 MB TranspositionTable through the real updateTB; "
+             "faults: clock jump past the time limit at every clock query of a generation, stop request (maxTimeMillis=0) at every clock query",
+    oracle="Bellman local consistency: checkmate = mated in 0, stalemate = draw, non-terminal value = minimax of successor values (successors from MoveGen, validated by C01); "
+           "out-of-scope positions (pawns, castling rights, other material) not found; after an aborted generation no probe succeeds, used size is restored, and a second complete generation is exact",
+    bound=dict(quick="all 3-men classes on all 64x64 king placements (vector + TT storage), 4-men classes KQvKR, KRvKB, KNvKQ, KBNvK, KvKRR, KRvKR + 2 rotating (vector storage) and KQvKN + 1 rotating (TT storage) with the white king in the a1-d1-d4 triangle, "
+                     "all abort points of all 8 three-men classes", thorough="all 36 4-men classes on every placement, all abort points of all 3-men and 2 four-men classes"),
+    assumptions=["the minimax equations use texel's MoveGen for successors; MoveGen is checked against the independent oracle on all <= 4-men placements by C01",
+                 "distance to mate ignores the 50-move rule (as the tables do)"],
+    technique="exhaustive state enumeration of each table (every placement, both sides) with a local-consistency (Bellman) oracle, plus exhaustive fault-point enumeration of generation",
+    level_text="Every entry of every generated table is visited through every symmetry image and checked against the fixed-point equations that characterise exact distance to mate; "
+               "every abort point of generation is executed on the real updateTB.",
+    level_note="Trusted: uniqueness of the solution of terminal labels + minimax equations (induction on distance); texel's MoveGen (C01).",
+)
